@@ -296,6 +296,17 @@ class CallModelsMixin:
                 ks.add("U")
         return frozenset(ks), frozenset(fs)
 
+    def _fixed_width_seq(self, ops, node):
+        """exact context: numpy builds a fixed-width (int64 / uint64 / float64) array from a Python sequence that holds only
+        integers computed from the user's data — arbitrary-precision integers beyond 2**63 are rounded or overflow"""
+        if not self.A.exact:
+            return
+        for o in ops:
+            ks = scal_kind(o)
+            if ks and ks <= {"I", "Z"} and "ndarray" not in o.ty and (o.ty & {"tuple", "list"}) and any(d[0] in ("P", "PF") for d in o.all_dep()):
+                self.A.notes.append(("fixed-width", self.fi.qual, self.loc(node), ast.unparse(node)[:80]))
+                return
+
     def ext_call(self, dotted: str, pos, kw, st, node) -> Val:
         d, m = _deps(pos + list(kw.values()))
         parts = dotted.split(".")
@@ -334,6 +345,8 @@ class CallModelsMixin:
             ks = scal_kind(a0)
             fsrc = a0.all_fsrc()
             dk = self.dtype_kind(kw, pos[1] if len(pos) > 1 else None, node, None)
+            if dk is None and name in ("array", "asarray", "asanyarray"):
+                self._fixed_width_seq([a0], node)
             if dk is not None:
                 kk, fs2 = dk
                 if "F" in kk:
@@ -397,6 +410,8 @@ class CallModelsMixin:
                     ops += list(p.items)
                 else:
                     ops.append(p)
+            if "dtype" not in kw:
+                self._fixed_width_seq(ops, node)
             ks = frozenset().union(*[scal_kind(o) for o in ops]) if ops else EMPTY
             fsrc = frozenset().union(*[o.all_fsrc() for o in ops]) if ops else EMPTY
             oe = joinall([self.obj_elem(o) for o in ops if self.obj_elem(o) is not None])
